@@ -3,6 +3,7 @@
 No repository source is edited: Python resolves module globals before builtins, so `battery.min = sym_min`
 makes the repository's own `min([...])` call build an ITE term. Every stub listed here is part of the claim.
 """
+from fractions import Fraction
 import builtins
 import importlib
 import types
@@ -593,6 +594,20 @@ class SymDateTime:
         raise TypeError("SymDateTime.time() is not modelled")
 
     def __add__(self, td):
+        import numpy as _rnp
+        import datetime as _rdt
+
+        if isinstance(td, _rnp.ndarray) and td.dtype.kind == "m":
+            # datetime64 + array of timedelta64 (vectorised date arithmetic): elementwise, exact to the microsecond
+            out = _rnp.empty(td.shape, dtype=object)
+            for idx in _rnp.ndindex(td.shape):
+                out[idx] = self + td[idx]
+            return out
+        if isinstance(td, _rnp.timedelta64):
+            us = int(td.astype("timedelta64[us]").astype("int64"))
+            td = SymTimedelta.of(core.lift_num(Fraction(us, 10 ** 6)) if us % 10 ** 6 else us // 10 ** 6)
+        elif isinstance(td, _rdt.timedelta):
+            td = SymTimedelta.of(td.days * 86400 + td.seconds if not td.microseconds else Fraction(td.days * 86400 * 10 ** 6 + td.seconds * 10 ** 6 + td.microseconds, 10 ** 6))
         if not isinstance(td, SymTimedelta):
             return NotImplemented
         cx = core.Ctx.cur
